@@ -53,3 +53,53 @@ def mutate_conventional(rng):
 
 def parse_cmd(obj, path, content, dl, cm, py=False, jn=False):
     return "parse %d %s %s %s %s %d %d" % (obj, enc(path), enc(content), enc(dl), enc(cm), int(py), int(jn))
+
+# ---------------------------------------------------------------- histories (5.6)
+import floatoracle as _fo
+SECTIONS = [None, b"", b"A", b"[A]", b"B", b"[B]", b"_none_", b"C c", b"[D", b"[A]b]"]
+KEYS = [b"k1", b"k2", b"k3", b"k4", b"key five"]
+BADKEYS = [None, b""]
+STRVALS = [b"v", b"", b"two words", b"Yes Please", b"-17", b"0x1F", b"077", b"1e3", b"true", b"NO", b"_none_",
+           b"4294967296", b"2147483648", b"-1", b"99999999999999999999999", b" 12", b"12 ", b"p-", b"g@lse", b"nan", b"inf"]
+BOOLWORDS = [b"yes", b"no", b"true", b"false", b"1", b"0", b"YES", b"No", b"tRuE", b"FALSE", b"", b"maybe", b"_none_", b"p-", None, b"10", b"2"]
+KINDS = ["string", "int", "int64", "uint", "uint64", "bool", "float", "double"]
+
+def rand_int(rng, kd):
+    lo, hi = {"int": (-2**31, 2**31 - 1), "int64": (-2**63, 2**63 - 1), "uint": (0, 2**32 - 1), "uint64": (0, 2**64 - 1)}[kd]
+    r = rng.random()
+    if r < 0.3: return rng.choice([lo, hi, lo + 1, hi - 1, 0, 1])
+    if r < 0.6: return rng.randint(max(lo, -1000), min(hi, 1000))
+    return rng.randint(lo, hi)
+
+def set_cmd(rng, o, kd=None, g="?", k="?"):
+    kd = kd or rng.choice(KINDS)
+    if g == "?": g = rng.choice(SECTIONS)
+    if k == "?": k = rng.choice(KEYS) if rng.random() < 0.93 else rng.choice(BADKEYS)
+    text, z = None, 0
+    if kd == "string": text = rng.choice(STRVALS) if rng.random() < 0.95 else None
+    elif kd == "bool": text = rng.choice(BOOLWORDS)
+    elif kd in ("float", "double"):
+        bits = 32 if kd == "float" else 64
+        z = rng.getrandbits(bits) if rng.random() < 0.7 else rng.choice([0, 1, 1 << (bits - 1), (1 << (bits - 1)) - 1])
+        text = _fo.fmt_g(z, bits)
+    else: z = rand_int(rng, kd)
+    return "set %d %s %s %s %s %d" % (o, kd, enc(g), enc(k), enc(text), z)
+
+def get_cmd(rng, o, g="?", k="?", kd=None):
+    kd = kd or rng.choice(KINDS)
+    if g == "?": g = rng.choice(SECTIONS)
+    if k == "?": k = rng.choice(KEYS) if rng.random() < 0.93 else rng.choice(BADKEYS)
+    d = "-"
+    if rng.random() < 0.4:
+        if kd == "string": d = "s:" + enc(rng.choice([b"dflt", b"", None]))
+        elif kd == "bool": d = "b:%d" % rng.randrange(2)
+        elif kd in ("int", "int64", "uint", "uint64"): d = "i:%d" % rand_int(rng, kd)
+    return "get %d %s %s %s %s" % (o, kd, enc(g), enc(k), d)
+
+def start_cmd(rng, o):
+    r = rng.randrange(5)
+    if r == 0: return "newini %d" % o
+    if r == 1: return "newkf %d %d %d" % (o, rng.choice([61, 58, 32]), rng.choice([35, 59]))
+    if r == 2: return "newempty %d" % o
+    content = rng.choice([b"k1=file1\n[A]\nk2 = \"q v\" # c\nk1=a1\n[B]\nk3=3\n", b"k1=x\nk1=y\n[A]\n[E]\n[A]\nk4=Yes\n", b"# only a comment\n", b""])
+    return parse_cmd(o, b"/d/start.conf", content, b"=", b"#")
